@@ -1026,6 +1026,10 @@ func (c *Conn) handlePackets() (wasProcessed bool, _ error) {
 		if c.qlogger != nil && wire.IsLongHeaderPacket(p.data[0]) {
 			datagramID = qlog.CalculateDatagramID(p.data)
 		}
+		// Credit the datagram towards the anti-amplification limit when it is received, not in
+		// handleOnePacket: a packet that is buffered until its keys are available passes through
+		// handleOnePacket a second time, but was received only once.
+		c.sentPacketHandler.ReceivedBytes(p.Size(), p.rcvTime)
 		processed, err := c.handleOnePacket(p, datagramID)
 		if err != nil {
 			return false, err
@@ -1056,8 +1060,6 @@ func (c *Conn) handlePackets() (wasProcessed bool, _ error) {
 }
 
 func (c *Conn) handleOnePacket(rp receivedPacket, datagramID qlog.DatagramID) (wasProcessed bool, _ error) {
-	c.sentPacketHandler.ReceivedBytes(rp.Size(), rp.rcvTime)
-
 	if wire.IsVersionNegotiationPacket(rp.data) {
 		return false, c.handleVersionNegotiationPacket(rp)
 	}
